@@ -271,10 +271,23 @@ func (g *G) incBody(idx int, withBlocks bool, depth int) []*m.N {
 				out = append(out, whoCall())
 			}
 		default:
-			out = append(out, &m.N{K: "for", S: "x", X: m.EBin("..", m.ENum(1), m.ENum(2)), Body: []*m.N{g.incObserve()}})
+			out = append(out, &m.N{K: "for", S: "x", X: g.incSeq(), Body: []*m.N{g.incObserve()}})
 		}
 	}
 	return out
+}
+
+// incSeq is the sequence of a loop around a call site: a range, or a list
+// with null elements (a null loop variable still hides an outer variable of
+// the same name from the included template).
+func (g *G) incSeq() *m.E {
+	switch g.intn("incseq", 0, 3) {
+	case 0:
+		return m.EArr(m.ENull(), m.ENum(3))
+	case 1:
+		return m.EArr(m.EStr("s"), m.ENull())
+	}
+	return m.EBin("..", m.ENum(1), m.ENum(2))
 }
 
 func (g *G) incFilterSection() *m.N {
@@ -397,7 +410,7 @@ func (g *G) IncludeProgram() *m.Program {
 		case 1:
 			host.Body = append(host.Body, &m.N{K: "set", S: pickS(g, "hs", incNames), X: g.incLit()})
 		case 2:
-			host.Body = append(host.Body, &m.N{K: "for", S: "y", T: "", X: m.EBin("..", m.ENum(1), m.ENum(2)), Body: []*m.N{g.incStmt(nt, 0), g.incProbe()}})
+			host.Body = append(host.Body, &m.N{K: "for", S: pickS(g, "hlv", []string{"y", "y", "x"}), T: "", X: g.incSeq(), Body: []*m.N{g.incStmt(nt, 0), g.incProbe()}})
 		case 3:
 			if !hostBlocks {
 				host.Body = append(host.Body, &m.N{K: "block", S: "hb" + fmt.Sprint(i), Body: []*m.N{g.incStmt(nt, 0)}})
@@ -479,6 +492,14 @@ func (g *G) MacroProgram() *m.Program {
 	}
 	if len(from.Pairs) > 0 {
 		main.Body = append(main.Body, from)
+		// a local macro defined after the from tag under the name an import is
+		// known by: plain calls still reach the imported macro, _self the local
+		if g.intn("shadowlocal", 0, 3) == 0 {
+			pr := from.Pairs[g.intn("shadowwhich", 0, len(from.Pairs)-1)]
+			own := &m.N{K: "macro", S: pr[1], Names: []string{"p1", "p0"}, Body: []*m.N{m.NText("OWN("), m.NPrint(m.ECall("cat", m.EName("p0"), m.EName("p1"))), whoCall(), m.NText(")")}}
+			main.Body = append(main.Body, own, m.NPrint(&m.E{K: "mcall", S: pr[1], T: "self", A: []*m.E{m.ENum(1), m.ENum(2)}}),
+				m.NText("/"), m.NPrint(&m.E{K: "mcall", S: pr[0], T: "from", U: pr[1], A: []*m.E{m.ENum(1), m.ENum(2)}}), m.NText(";"))
+		}
 	}
 	arg := func() *m.E { return g.Expr(pickS(g, "aty", []Ty{TInt, TStr, TBool, TNull}), 1) }
 	call := func() *m.E {
